@@ -633,6 +633,13 @@ func (p *packerV4) pack(options ...*bgp.MarshallingOption) []*bgp.BGPMessage {
 
 	loop := func(attrsLen int, paths []*Path, cb func([]bgp.PathNLRI)) {
 		max := maxNLRIs(attrsLen)
+		if max < 1 {
+			// The attributes leave no room for a worst-case NLRI. Emit one
+			// NLRI per message (as packerMP does): a short prefix may still
+			// fit, and otherwise BGPMessage.Serialize rejects the message so
+			// the sender logs and skips just that route.
+			max = 1
+		}
 		var nlris []bgp.PathNLRI
 		for {
 			nlris, paths = split(max, paths)
